@@ -292,6 +292,24 @@ def clause_hydrated_incumbent(prog, rep):
     rep.floor("snapshot-records-incumbent", "EpochSnapshot reconstruction sites", n, 1)
 
 
+def clause_wrong_epoch_source(prog, rep, rule="rollback-arm"):
+    """the race-resolution arm is entered with Error::ProcessMessageWrongEpoch; that error stands for exactly OpenMLS'
+    ValidationError::WrongEpoch (a handshake message of another epoch).  Any other rejection filed under it — a replayed application
+    message that cannot be decrypted again, a bad signature ... — would be weighed as a competing commit and could roll the group back."""
+    n = 0
+    for f in prog.nontest_fns(("mdk_core",)):
+        for bb, s in f.aggregates("Error", "ProcessMessageWrongEpoch"):
+            if f.name == "sanitize_error_reason":
+                continue
+            n += 1
+            ok = A.arm_only(prog, f, bb, "ValidationError", {"WrongEpoch"})
+            rep.check(ok, rule, "%s/wrong-epoch-source" % prog.fns.get(f.root, f).label(),
+                      "Error::ProcessMessageWrongEpoch is raised only on the ValidationError::WrongEpoch arm",
+                      "Error::ProcessMessageWrongEpoch is also raised for other OpenMLS rejections (not only ValidationError::WrongEpoch): such an event "
+                      "is then treated as a competing commit of an earlier epoch and can trigger a rollback", "%s:%s" % (f.file, s.get("line")))
+    rep.floor(rule, "constructions of Error::ProcessMessageWrongEpoch", n, 1)
+
+
 def clause_future_epoch(prog, rep):
     """C01.4: a WrongEpoch commit from a *future* epoch must not be filed as terminally Failed."""
     scope = K.core_scope(prog)
@@ -350,6 +368,7 @@ def run(ctx, rep):
     clause_snapshot_before_merge(prog, rep)
     clause_comparator(prog, rep)
     clause_rollback_arm(prog, rep)
+    clause_wrong_epoch_source(prog, rep)
     import os, sys
     sys.path.insert(0, os.path.dirname(os.path.abspath(__file__)))
     import c05
